@@ -92,7 +92,21 @@ Inductive case :=
 | CSched (sched : list faction) (impl : list pick)
 (* loadCertificates on a map (keys in the shuffled order given): the certificates returned,
    each with the file the harness made it from, and whether an error was returned *)
-| CLoad (m : blocks) (impl : list (str * cert)) (impl_err : bool).
+| CLoad (m : blocks) (impl : list (str * cert)) (impl_err : bool)
+(* sets of whole certificates (names, leaf identity, identity of chain + staple) sent one
+   after the other through the real TLSConfig, a handshake after each: what GetCertificate
+   returned, position by leaf in the set just sent (1000: not in it) and the value's content *)
+| CMaterial (sets : list fset) (sn : str) (strict : bool) (impl : list presented).
+
+(* the property's demand on what a handshake is given after [set] was published: the names
+   say which position(s) may answer, and the value given is the set's own at that position *)
+Definition present_ok (set : fset) (sn : str) (strict : bool) (p : presented) : bool :=
+  pick_ok (names_of set) sn strict (pick_of p)
+  && match p with
+     | RCert i c => match nth_error set i with Some d => fcert_eqb c d | None => false end
+     | ROutside _ => false
+     | _ => true
+     end.
 
 Definition unusable_b (l : load) : bool := match usable l with None => true | Some _ => false end.
 
@@ -148,4 +162,10 @@ Definition check_case (c : case) : N :=
       let '(mf, me) := load_files m in
       let same := Bool.eqb impl_err me && list_eqb file_eqb impl mf in
       verdict same (load_spec m impl impl_err) None (Nat.ltb 1 (length mf) || me)
+  | CMaterial sets sn strict impl =>
+      let m := run_mstore [] (flat_map (fun s => [MPublish s; MHandshake sn strict]) sets) in
+      let same := list_eqb presented_eqb impl m in
+      let spec := all2 (fun s p => present_ok s sn strict p) sets impl in
+      let nontriv := match m with p :: r => existsb (fun q => negb (presented_eqb p q)) r | [] => false end in
+      verdict same spec None nontriv
   end.
